@@ -1,8 +1,9 @@
 package c07
 
 // Sequencer path: blocks stored through Blockchain.Finalise with a block signer (what the builder/sequencer does)
-// instead of SanityCheckNewHeight+Store. What was stored is the block object as Finalise leaves it (roots, hash,
-// commitments, signature filled in); every accessor must return exactly that, before and after a restart.
+// instead of SanityCheckNewHeight+Store. Everything Finalise fills in (roots, hash, commitments) is known beforehand
+// from the reference model and the signature from the test signer, so the reference is independent of the objects
+// Finalise worked on (see put in inner_test.go); every accessor must return exactly that, before and after a restart.
 
 import (
 	"fmt"
@@ -10,8 +11,6 @@ import (
 	"verif/mc/chain"
 	"verif/mc/ev"
 
-	"github.com/NethermindEth/juno/core"
-	"github.com/NethermindEth/juno/core/felt"
 )
 
 func (h *harness) finalisePhase(versions []string) {
@@ -38,37 +37,24 @@ func (h *harness) finalisePhase(versions []string) {
 		d := backends[j.cfg.be].open()
 		defer d.Close()
 		bc := chain.NewNode(d, j.cfg.newState)
-		var sign core.BlockSignFunc
+		via := viaFinalise
 		if j.signed {
-			sign = func(blockHash, stateDiffCommitment *felt.Felt) ([]*felt.Felt, error) {
-				r := new(felt.Felt).Add(blockHash, chain.F(1))
-				s := new(felt.Felt).Add(stateDiffCommitment, chain.F(2))
-				return []*felt.Felt{r, s}, nil
-			}
+			via = viaFinaliseSigned
 		}
 		var refs []*storedBlock
 		for bi, sb := range plan {
-			blk, su, cls := deepCopy(sb.E.Block), deepCopy(sb.E.SU), deepCopy(sb.E.Classes)
-			blk.Signatures = nil
-			if err := bc.Finalise(blk, su, cls, sign); err != nil {
+			// put: juno gets deep copies made before the call; the reference is the generator's own (independently hashed)
+			// block with the signer's expected output, never the object Finalise worked on
+			ref, err := h.put(bc, sb.E, sb.CM, via, cfg)
+			if err != nil {
 				h.r.Violate("reader/finalise rejected a valid block", map[string]any{"cfg": cfg, "block": bi, "what": describe(sb.E), "err": err.Error()})
 				return
 			}
-			if j.signed && len(blk.Signatures) == 0 {
-				h.r.Violate("reader/finalise did not sign", map[string]any{"cfg": cfg, "block": bi})
-				return
-			}
-			// reference = a private copy of what Finalise produced
-			fin := &chain.Entry{Spec: sb.E.Spec, Block: deepCopy(blk), SU: deepCopy(su), Classes: sb.E.Classes, State: sb.E.State}
-			_, cm, err := core.BlockHash(fin.Block, fin.SU.StateDiff, chain.Net, nil, core.TrieBackend)
-			if err != nil {
-				h.r.Infra("block hash of finalised block: %v", err)
-			}
-			ref := &storedBlock{E: fin, CM: cm, RS: sb.RS}
+			ref.RS = sb.RS
 			refs = append(refs, ref)
 			h.r.Add("blocks_finalised", 1)
 			if h.checkReader(bc, d, ref, true, cfg) {
-				h.r.Outcome(fmt.Sprintf("finalise reader ok txs=%d", len(blk.Transactions)))
+				h.r.Outcome(fmt.Sprintf("finalise reader ok txs=%d", len(ref.E.Block.Transactions)))
 			} else {
 				h.r.Outcome("finalise reader mismatch")
 			}
